@@ -22,15 +22,19 @@ EdgeD == {0 - 140, 0 - 130, 0 - 129, 0 - 128, 0 - 127, 0 - 126, 0 - 3, 0 - 2, 0 
 Ds(mn) == IF Full \/ mn = "bra" THEN AllD ELSE EdgeD
 
 \* window start / middle / 3, 2, 1 bytes before the window end, per mapping
-Places(rom) == IF rom = "low" THEN {32768 + 200, 49152, 65533 - 2, 65533, 65534} ELSE {12582912 + 200, 12615680, 12648445 - 2, 12648445, 12648446}
-RelocRom(rom) == IF rom = "low" THEN 163840 + 300 ELSE 12845056 + 300      \* 0x028000 / 0xC40000 (+300)
-RomStart(rom) == IF rom = "low" THEN 32768 ELSE 12582912
+\* "custom": a user-declared bus (.map): LoROM-like ROM in banks 00-1F mirrored at 80-9F, RAM 7E-7F declared writable=1
+CustomDecls == << MapDecl("1", 0, 31, 32768, 65535, 32768, FALSE, 128, 159), MapDecl("2", 126, 127, 0, 65535, 65536, TRUE, NoMirror, NoMirror) >>
+Places(rom) == IF rom \in {"low", "custom"} THEN {32768 + 200, 49152, 65533 - 2, 65533, 65534} ELSE {12582912 + 200, 12615680, 12648445 - 2, 12648445, 12648446}
+RelocRom(rom) == IF rom \in {"low", "custom"} THEN 163840 + 300 ELSE 12845056 + 300      \* 0x028000 / 0xC40000 (+300)
+RomStart(rom) == IF rom \in {"low", "custom"} THEN 32768 ELSE 12582912
 Ram == 8265728                                                              \* 0x7E2000
 
 \* the branch sits at run address A (after the moves); target = A + 2 + d
 \* form "expr": `here: bra here + 2 + d`      form "label": padding and a label at the target
-Body(mn, d, form) ==
-    IF form = "expr" THEN << Lab("here"), Br(mn, Plus(I("here"), 2 + d)) >>
+\* form "literal": the target written as one number (A = the branch's own run address)
+Body(mn, d, form, A) ==
+    IF form = "literal" THEN << Br(mn, N(A + 2 + d)) >>
+    ELSE IF form = "expr" THEN << Lab("here"), Br(mn, Plus(I("here"), 2 + d)) >>
     ELSE IF d >= 0 THEN << Br(mn, I("target")), Pad(d), Lab("target"), [k |-> "data", d |-> "db", es |-> <<N(234)>>] >>
     ELSE << Lab("target"), Pad(0 - d - 2), Br(mn, I("target")) >>
 
@@ -45,17 +49,22 @@ Program(rom, mn, d, place, reloc, form) ==
                  \* relocated to run at the very first ROM byte (file offset 0) from somewhere else
                  [] reloc = "rom0"   -> << Star(place), At(RomStart(rom)) >>
                  [] reloc = "ram2rom" -> << Star(place), Lab("romtarget"), [k |-> "data", d |-> "db", es |-> <<N(96)>>], At(Ram) >>
-        body == IF reloc = "ram2rom" THEN << Br(mn, Plus(I("romtarget"), d)) >> ELSE Body(mn, d, form)
-    IN [rom |-> rom, defines |-> <<>>, body |-> pre \o body]
+        A == CASE reloc = "none" -> place [] reloc = "rom" -> RelocRom(rom) [] reloc = "ram" -> Ram [] reloc = "rom0" -> RomStart(rom)
+               [] OTHER -> 0
+        body == IF reloc = "ram2rom" THEN << Br(mn, Plus(I("romtarget"), d)) >> ELSE Body(mn, d, form, A)
+        maps == IF rom = "custom" THEN [j \in 1..Len(CustomDecls) |-> [k |-> "map", decl |-> CustomDecls[j]]] ELSE <<>>
+    IN [rom |-> IF rom = "custom" THEN "low" ELSE rom, defines |-> <<>>, body |-> maps \o pre \o body]
 
 Forms(d) == IF d >= -1 \/ d < -1 THEN (IF d = -1 THEN {"expr"} ELSE {"expr", "label"}) ELSE {}
 
 VARIABLE c
 Init == c = <<>>
-Next == c = <<>> /\ \E rom \in {"low", "high"}, mn \in Mns, reloc \in {"none", "rom", "ram", "ram2rom", "rom0"} :
-          \E d \in Ds(mn), place \in Places(rom), form \in {"expr", "label"} :
+Next == c = <<>> /\ \E rom \in {"low", "high", "custom"}, mn \in Mns, reloc \in {"none", "rom", "ram", "ram2rom", "rom0"} :
+          \E d \in Ds(mn), place \in Places(rom), form \in {"expr", "label", "literal"} :
             /\ (d % NShards) = Shard
-            /\ form \in Forms(d)
+            /\ (form = "literal" \/ form \in Forms(d))
+            /\ (form = "literal" => d \in EdgeD)
+            /\ (rom = "custom" => (d \in EdgeD /\ mn \in {"bra", "bne", "bcc"}))
             /\ (reloc = "ram2rom" => (form = "expr" /\ d \in {0 - 2, 0, 5}))
             /\ (reloc = "rom0" => (form = "expr" \/ d >= 0))     \* nothing may be placed below the first ROM byte
             \* the label form needs room before the place for the padding
